@@ -195,6 +195,23 @@ class System:
             got = []
             ifc = self.ifaces[exporter][0] if proxy_mode == 'explicit' \
                 else None
+            if proxy_mode == 'reintrospect':
+                # the calling side already knows an outdated definition of
+                # the interface; it asks for replacement, then builds the
+                # proxy it will use from the (now replaced) known name
+                from txdbus import interface as I
+                I.DBusInterface('org.ex.Svc', I.Method('Echo', 's', 's'))
+                first = []
+                self.cprotos[caller].getRemoteObject(
+                    sc['exporters'][exporter], '/svc',
+                    replaceKnownInterfaces=True).addBoth(first.append)
+                self.pump()
+                self.cprotos[caller].getRemoteObject(
+                    sc['exporters'][exporter], '/svc',
+                    'org.ex.Svc').addBoth(got.append)
+                self.pump()
+                self.proxies[(caller, exporter)] = got
+                continue
             self.cprotos[caller].getRemoteObject(
                 sc['exporters'][exporter], '/svc', ifc).addBoth(got.append)
             self.pump()
@@ -283,7 +300,14 @@ def make_runner(params):
                 sink = []
                 results.append(sink)
                 prox = s.proxies[(caller, exporter)][0]
-                d = prox.callRemote(method, *args)
+                try:
+                    d = prox.callRemote(method, *args)
+                except Exception as e:
+                    viol.append(('%s/call-raises/%s/%s'
+                                 % (PROP, type(e).__name__, mode),
+                                 'proxy.callRemote(%r, %r) (%s proxy) raised '
+                                 '%r' % (method, args, mode, e)))
+                    return [], [], viol, {'params': params}
                 d.addCallbacks(
                     lambda v, sink=sink: sink.append(('ok', v)),
                     lambda f, sink=sink: sink.append(
@@ -319,11 +343,23 @@ def make_runner(params):
                 taken.append(c)
                 points.append([o[0] for o in opts])
                 act = opts[c][1]
-                if act[0] == 'd':
-                    s.deliver(act[1], act[2], act[3])
-                else:
-                    d, arg = s.held[act[1]]
-                    d.callback(arg + '!')
+                try:
+                    if act[0] == 'd':
+                        s.deliver(act[1], act[2], act[3])
+                    else:
+                        d, arg = s.held[act[1]]
+                        d.callback(arg + '!')
+                except core.HarnessError:
+                    raise
+                except Exception as e:
+                    import traceback
+                    tb = traceback.extract_tb(e.__traceback__)
+                    where = '%s:%s' % (tb[-1].filename.split('/')[-1],
+                                       tb[-1].name)
+                    viol.append(('%s/delivery-raises/%s/%s'
+                                 % (PROP, type(e).__name__, where),
+                                 'step %r raised %r at %s' % (act, e, where)))
+                    return taken, points, viol, {'params': params}
                 step += 1
             if step >= 400:
                 viol.append(('%s/no-quiescence' % PROP,
@@ -336,7 +372,7 @@ def make_runner(params):
             for ci, (caller, exporter, key) in enumerate(sc['calls']):
                 method, args, expf, logent = CALLS[key]
                 exp = expf(names[exporter], uniq[caller])
-                if key.startswith('echo') and mode == 'introspect':
+                if key.startswith('echo') and mode == 'introspect':  # noqa
                     # 'Echo' is declared by two interfaces; without an
                     # interface argument a proxy uses the first of its
                     # interfaces declaring it - for an introspected proxy
@@ -411,6 +447,7 @@ def run(ctx):
                 ('2c-slow', 'explicit', 1), ('2c-fail', 'introspect', 1),
                 ('2c-who', 'explicit', 1), ('2c-3calls', 'explicit', 0),
                 ('2c-containers', 'introspect', 0),
+                ('2c-2calls', 'reintrospect', 0),
                 ('3c-2callers', 'explicit', 1),
                 ('3c-2exporters', 'introspect', 1)]
         limit = 5000
@@ -420,6 +457,8 @@ def run(ctx):
                 ('2c-who', 'explicit', 1), ('2c-3calls', 'explicit', 0),
                 ('2c-containers', 'introspect', 1),
                 ('2c-containers', 'explicit', 0),
+                ('2c-2calls', 'reintrospect', 1),
+                ('2c-fail', 'reintrospect', 0),
                 ('3c-2callers', 'explicit', 1),
                 ('3c-2exporters', 'introspect', 1),
                 ('3c-mixed', 'explicit', 0), ('4c', 'explicit', 0)]
